@@ -119,7 +119,9 @@ CheckC17p(e) ==
                   \* the returned value is the operand's value
                   \cup Tag(e.b.ret = e.a.ret /\ e.b.vars = e.a.vars /\ e.b.rolls = e.a.rolls, "returned-value-not-used")
                   \* UsedByCopy: changing the returned object afterwards changes nothing the VM holds
-                  \cup Tag(e.retAfter = e.retBefore /\ e.varsAfter = e.varsBefore, "result-aliased"))
+                  \cup Tag(e.retAfter = e.retBefore /\ e.varsAfter = e.varsBefore, "result-aliased")
+                  \* ... nor what the process text shows: each operand with the value it returned when it was evaluated
+                  \cup Tag(\A i \in 1..Len(e.shown) : e.shown[i].present, "result-aliased-in-process-text"))
 
 Check(e) == CASE e.ev = "c03" -> CheckC03(e)
               [] e.ev = "c17t" -> CheckC17t(e)
